@@ -46,8 +46,8 @@ func (f *Failure) key() string { return f.Property + "|" + f.Clause + "|" + f.Si
 // Known is an entry of known_findings.json.
 type Known struct {
 	Property    string   `json:"property"`
-	Clause      string   `json:"clause"`       // exact clause
-	DetailRegex string   `json:"detail_regex"` // matched against Sig + "\n" + Detail
+	Clause      string   `json:"clause"`                      // exact clause
+	DetailRegex string   `json:"detail_regex"`                // matched against Sig + "\n" + Detail
 	Features    []string `json:"required_features,omitempty"` // each a regex that must match some feature (or a file content, prefixed "src:")
 	Description string   `json:"description"`
 	Fixed       string   `json:"fixed,omitempty"` // "fixed: property=<id> <commit> <what failed>": suppresses nothing
